@@ -16,7 +16,9 @@
 package c38
 
 import (
+	"encoding/json"
 	"fmt"
+	"os"
 	"runtime"
 	"sort"
 	"sync"
@@ -358,7 +360,7 @@ type runCase struct {
 	Start        string `json:"start"` // cold (restarted: no password in memory) | warm | unlocked
 	Queue        []bool `json:"viaQueue"`
 	Scripts      [][]op `json:"scripts"`
-	AwaitTimeout bool   `json:"awaitTimeout"`
+	AwaitTimeout string `json:"awaitTimeout"` // "", "quiet" or "busy": end the run with an unlock that times out after 1 s
 }
 
 const watchdog = 120 * time.Second
@@ -425,22 +427,33 @@ func execute(c runCase) *history {
 		own = append(own, o)
 		return o.Unlocked
 	}
-	if c.AwaitTimeout {
-		// the window of an unlock with Timeout=1s must be closed by the wallet itself: wait (observers keep sampling,
-		// failing password changes keep coming) until the wallet is seen locked, then go on a little longer.
+	if c.AwaitTimeout != "" {
+		// the window of an unlock with Timeout=1s must be closed by the wallet itself; observers keep sampling.
+		// "quiet": nothing else is sent, so nothing can interfere with the timer: wait until the wallet is seen locked
+		//          (a watchdog expiry is inconclusive: wall-clock is not an oracle);
+		// "busy":  failing password changes keep coming while waiting (timer against ProcWalletSetPasswd); the wait is
+		//          bounded by a request count and ends with an explicit lock: no verdict from "not yet relocked".
 		u, _ := w.do(-2, 0, op{Kind: "unlock", Timeout: 1}, false)
 		h.calls = append(h.calls, *u)
 		if u.OK {
 			deadline := time.Now().Add(watchdog)
 			for i := 1; look("IsWalletLocked() between requests"); i++ {
-				if time.Now().After(deadline) {
-					lib.Inconclusive("C38: wallet still unlocked %v after an unlock with a 1 s timeout (wall-clock is not an oracle)", watchdog)
+				if c.AwaitTimeout == "quiet" && time.Now().After(deadline) {
+					lib.Inconclusive("C38: wallet still unlocked %v after an unlock with a 1 s timeout and no other request (wall-clock is not an oracle)", watchdog)
 				}
-				s, _ := w.do(-2, i, op{Kind: "chpassWrong"}, false)
-				h.calls = append(h.calls, *s)
+				if c.AwaitTimeout == "busy" {
+					if i > 4000 {
+						lib.Class("await_busy_not_relocked")
+						l, _ := w.do(-2, i, op{Kind: "lock"}, false)
+						h.calls = append(h.calls, *l)
+						break
+					}
+					s, _ := w.do(-2, i, op{Kind: "chpassWrong"}, false)
+					h.calls = append(h.calls, *s)
+				}
 				time.Sleep(time.Millisecond)
 			}
-			for i := 0; i < 200; i++ {
+			for i := 0; i < 100; i++ {
 				s, _ := w.do(-2, 100000+i, op{Kind: "chpassWrong"}, false)
 				h.calls = append(h.calls, *s)
 			}
@@ -463,7 +476,7 @@ var kinds = []string{"unlock", "unlockWrong", "unlockStale", "lock", "chpass", "
 
 func genCase(t *rapid.T) runCase {
 	c := runCase{Start: rapid.SampledFrom([]string{"cold", "cold", "warm", "unlocked"}).Draw(t, "start"),
-		AwaitTimeout: rapid.IntRange(0, 7).Draw(t, "awaitTimeout") == 0}
+		AwaitTimeout: rapid.SampledFrom([]string{"", "", "", "", "", "", "", "", "", "", "quiet", "busy"}).Draw(t, "awaitTimeout")}
 	// a per-run weight for every request kind: mixes range from "only failing requests on a locked wallet"
 	// to "everything at once"
 	var bag []string
@@ -514,6 +527,10 @@ func TestPropLockVisibility(t *testing.T) {
 	rapid.Check(t, func(t *rapid.T) {
 		c := genCase(t)
 		lib.Eval()
+		if f := os.Getenv("C38_TRACE"); f != "" { // triage aid: the case about to run, replayable with C38_CASE=<file>
+			b, _ := json.Marshal(c)
+			_ = os.WriteFile(f, b, 0o644)
+		}
 		h := execute(c)
 		fs := h.analyse()
 
@@ -545,8 +562,8 @@ func TestPropLockVisibility(t *testing.T) {
 		lib.ClassN("samples", total)
 		lib.ClassN("samples_during_failing_change_while_locked", during)
 		lib.Class("start_" + c.Start)
-		if c.AwaitTimeout {
-			lib.Class("await_timeout")
+		if c.AwaitTimeout != "" {
+			lib.Class("await_timeout_" + c.AwaitTimeout)
 		}
 		for _, f := range fs {
 			lib.Class("finding_" + f.Kind)
@@ -557,6 +574,26 @@ func TestPropLockVisibility(t *testing.T) {
 		}
 		report(t, "TestPropLockVisibility", c, h, fs)
 	})
+}
+
+// TestReplayCase re-runs one saved case (C38_CASE=<json file written by C38_TRACE or taken from a replay's
+// "case" field) through the same oracle; the schedule is of course a new sample.
+func TestReplayCase(t *testing.T) {
+	defer lib.Flush()
+	f := os.Getenv("C38_CASE")
+	if f == "" {
+		t.Skip("C38_CASE not set")
+	}
+	var c runCase
+	b, err := os.ReadFile(f)
+	if err == nil {
+		err = json.Unmarshal(b, &c)
+	}
+	if err != nil {
+		t.Fatalf("cannot read case: %v", err)
+	}
+	h := execute(c)
+	report(t, "TestReplayCase", c, h, h.analyse())
 }
 
 // ---------------------------------------------------------------- pinned cases (no rapid)
